@@ -83,8 +83,8 @@ pub fn run(ctx: &RunCtx) -> Outcome {
         "regex-automata's internal pool cannot be put under a controlled scheduler with the installed tooling".into(),
     ];
     o.required_classes = vec!["mode:shared".into(), "mode:clone-before".into(), "mode:clone-concurrently".into(), "overlap:shared-VM-with-delegate".into()];
-    // static part
-    match static_check() {
+    // static part (not repeated by the ThreadSanitizer child)
+    match if std::env::var("FRV_C18_TSAN_INNER").is_ok() { Ok(()) } else { static_check() } {
         Ok(()) => o.stats.class("static:Send+Sync+Clone"),
         Err(f) if f.kind == "infra" => {
             o.infra_error = Some(format!("static check could not run: {}", f.actual));
@@ -143,7 +143,11 @@ pub fn run(ctx: &RunCtx) -> Outcome {
     let in_flight: Vec<AtomicUsize> = (0..PATTERNS.len()).map(|_| AtomicUsize::new(0)).collect();
     let overlaps = AtomicU64::new(0);
     let overlaps_vm = AtomicU64::new(0);
-    let rounds = if ctx.quick() { 120 } else { 4000 };
+    let inner_tsan = std::env::var("FRV_C18_TSAN_INNER").is_ok();
+    let rounds = match std::env::var("FRV_C18_ROUNDS").ok().and_then(|r| r.parse().ok()) {
+        Some(r) => r,
+        None => if ctx.quick() { 120 } else { 2500 },
+    };
     let steps = if ctx.quick() { 400 } else { 800 };
     let mut first_fail: Option<(Value, Fail)> = None;
     let mut evals = 0u64;
@@ -271,7 +275,53 @@ pub fn run(ctx: &RunCtx) -> Outcome {
     if let Some((case, fail)) = first_fail {
         o.violations.push(Violation { case, fail });
     }
+    if !ctx.quick() && !inner_tsan && o.violations.is_empty() {
+        // ThreadSanitizer: the same stress (fewer rounds) in a build instrumented with -Zsanitizer=thread,
+        // so that an unsynchronised shared cache is reported without needing an unlucky interleaving
+        match tsan_run(ctx) {
+            Ok((reports, first, info)) => {
+                o.extra.insert("tsan".into(), info);
+                if reports > 0 {
+                    o.violations.push(Violation { case: json!({"tsan": true}), fail: Fail::new("data-race", "no data race reported by ThreadSanitizer", first) });
+                }
+            }
+            Err(e) => {
+                o.extra.insert("tsan".into(), json!({"unavailable": e}));
+            }
+        }
+    }
     o
+}
+
+fn tsan_run(ctx: &RunCtx) -> Result<(usize, String, Value), String> {
+    let dir = format!("{}/harness", verif_dir());
+    let target = format!("{}/harness/target/tsan", verif_dir());
+    let build = Command::new("cargo")
+        .args(["+nightly", "build", "-Zbuild-std", "--target", "x86_64-unknown-linux-gnu", "--release", "--offline", "--target-dir", &target])
+        .current_dir(&dir)
+        .env("RUSTFLAGS", "-Zsanitizer=thread")
+        .env("CARGO_NET_OFFLINE", "true")
+        .output()
+        .map_err(|e| format!("cannot run cargo: {}", e))?;
+    if !build.status.success() {
+        return Err(format!("ThreadSanitizer build failed: {}", String::from_utf8_lossy(&build.stderr).lines().filter(|l| l.starts_with("error")).take(3).collect::<Vec<_>>().join(" | ")));
+    }
+    let bin = format!("{}/x86_64-unknown-linux-gnu/release/frv", target);
+    let out = Command::new(&bin)
+        .args(["C18", "thorough"])
+        .env("FRV_C18_TSAN_INNER", "1")
+        .env("FRV_C18_ROUNDS", "10")
+        .env("VERIF_SEED", ctx.seed.to_string())
+        .env("VERIF_DIR", format!("{}/harness/target/tsan-scratch", verif_dir()))
+        .env("TSAN_OPTIONS", "halt_on_error=0 report_thread_leaks=0 exitcode=0")
+        .output()
+        .map_err(|e| format!("cannot run the instrumented binary: {}", e))?;
+    let err = String::from_utf8_lossy(&out.stderr).to_string();
+    let so = String::from_utf8_lossy(&out.stdout).to_string();
+    let races: Vec<&str> = err.split("WARNING: ThreadSanitizer: ").skip(1).filter(|r| r.starts_with("data race")).collect();
+    let first = races.first().map(|r| r.lines().take(14).collect::<Vec<_>>().join(" | ")).unwrap_or_default();
+    let inner_violation = so.lines().any(|l| l.starts_with("VIOLATION"));
+    Ok((races.len() + inner_violation as usize, if first.is_empty() && inner_violation { so.lines().find(|l| l.starts_with("violation")).unwrap_or("").to_string() } else { first }, json!({"rounds": 10, "data_race_reports": races.len(), "exit": out.status.code()})))
 }
 
 pub fn replay(ctx: &RunCtx, case: &Value) -> Result<Option<Fail>, String> {
